@@ -161,4 +161,156 @@ def potrfLower (r : Rat → Rat) (n : Nat) (A : Mat) : Mat := fun i j => mget (p
 /-- `potrf<upper>` works on `trans(A)` -/
 def potrfUpper (r : Rat → Rat) (n : Nat) (A : Mat) : Mat := transpose (potrfLower r n (transpose A))
 
+/-! ## pivoted LU (`kernels/default/getrf.hpp`) -/
+
+def absR (x : Rat) : Rat := if x < 0 then -x else x
+
+/-- function update -/
+def upd (f : Nat → Nat) (j v : Nat) : Nat → Nat := fun t => if t = j then v else f t
+
+/-- the transposition `(a b)` -/
+def sw (a b i : Nat) : Nat := if i = a then b else if i = b then a else i
+
+/-- pivot search of `getrf_block`: the first row `i ≥ j` with the largest `|M(i,j)|`
+(`if(abs(A(i,j)) > abs(pivot_value))` keeps the earlier row on ties) -/
+def pivotRow (n : Nat) (M : Arr2) (j : Nat) : Nat :=
+  (List.range (n - j - 1)).foldl
+    (fun p d => if absR (mget M (j + 1 + d) j) > absR (mget M p j) then j + 1 + d else p) j
+
+def swapRows (n : Nat) (M : Arr2) (a b : Nat) : Arr2 := matOf n n fun i k => mget M (sw a b i) k
+
+structure LUState where
+  M : Arr2
+  P : Nat → Nat
+  fail : Bool
+
+/-- one column of `getrf_block`: search pivot, swap rows, scale the column, rank-one update of the
+lower right block; `fail` = `[getrf] Matrix is rank deficient` thrown -/
+def getrfStep (n : Nat) (j : Nat) (s : LUState) : LUState :=
+  if s.fail then s else
+  let p := pivotRow n s.M j
+  let piv := mget s.M p j
+  if piv = 0 then { s with fail := true } else
+  let M1 := swapRows n s.M j p
+  { M := matOf n n fun i k =>
+      if i ≤ j ∨ k < j then mget M1 i k
+      else if k = j then mget M1 i j / piv
+      else mget M1 i k - mget M1 i j / piv * mget M1 j k,
+    P := upd s.P j p, fail := false }
+
+def getrf (n : Nat) (A : Mat) : LUState := iter n (getrfStep n) ⟨matOf n n A, fun t => t, false⟩
+
+/-- `swap_rows(P, v)`: `swap(v(i), v(P(i)))` for `i = 0 … n-1`, as a reindexing:
+`(swapRowsSeq P t v) i = v (permOf P t i)` -/
+def permOf (P : Nat → Nat) : Nat → Nat → Nat
+  | 0, i => i
+  | t + 1, i => permOf P t (sw t (P t) i)
+
+/-- the inverse sequence `swap_rows_inverted`: `i = n-1 … 0` -/
+def permInvOf (P : Nat → Nat) : Nat → Nat → Nat
+  | 0, i => i
+  | t + 1, i => sw t (P t) (permInvOf P t i)
+
+/-! ## pivoted Cholesky (`kernels/default/pstrf.hpp`) -/
+
+/-- `std::max_element` over the running diagonal: first index `≥ j` with the largest `M(i,i)` -/
+def argmaxDiag (n : Nat) (M : Arr2) (j : Nat) : Nat :=
+  (List.range (n - j - 1)).foldl
+    (fun p d => if mget M p p < mget M (j + 1 + d) (j + 1 + d) then j + 1 + d else p) j
+
+def swapSym (n : Nat) (M : Arr2) (a b : Nat) : Arr2 := matOf n n fun i k => mget M (sw a b i) (sw a b k)
+
+structure PState where
+  M : Arr2
+  P : Nat → Nat
+  rank : Option Nat
+
+/-- one step of `pstrf` in exact arithmetic (the running diagonal `pivots(i)` of the C++ is the
+diagonal of the Schur complement kept in the trailing block): pivot = arg-max of the diagonal,
+symmetric swap, stop when the pivot is not above `eps` (remainder cleared; `<=` as in the repaired
+code, finding C02-pstrf-zero-matrix: with `<` the zero matrix is never detected), otherwise column `j` of
+the factor, row `j` cleared right of the diagonal, Schur complement update. -/
+def pstrfStep (r : Rat → Rat) (eps : Rat) (n : Nat) (j : Nat) (s : PState) : PState :=
+  match s.rank with
+  | some _ => s
+  | none =>
+    let p := argmaxDiag n s.M j
+    let M1 := swapSym n s.M j p
+    let piv := mget M1 j j
+    if piv ≤ eps then
+      { M := matOf n n fun i k => if j ≤ i ∧ j ≤ k then 0 else mget M1 i k, P := upd s.P j p, rank := some j }
+    else
+      let d := r piv
+      { M := matOf n n fun i k =>
+          if i < j ∨ k < j then mget M1 i k
+          else if k = j then (if i = j then d else mget M1 i j / d)
+          else if i = j then 0
+          else mget M1 i k - mget M1 i j / d * (mget M1 k j / d),
+        P := upd s.P j p, rank := none }
+
+def pstrf (r : Rat → Rat) (eps : Rat) (n : Nat) (A : Mat) : PState :=
+  iter n (pstrfStep r eps n) ⟨matOf n n A, fun t => t, none⟩
+
+/-- the stopping threshold of the C++: `m*m*DBL_EPSILON*max_diag`, `max_diag = max(A(0,0), |A(i,i)|, i ≥ 1)` -/
+def pstrfEps (n : Nat) (A : Mat) : Rat :=
+  let md := (List.range (n - 1)).foldl (fun m d => if m < absR (A (d + 1) (d + 1)) then absR (A (d + 1) (d + 1)) else m) (A 0 0)
+  (n : Rat) * (n : Rat) * md / (4503599627370496 : Rat)
+
+/-! ## `solver_traits` dispatch (`decompositions.hpp`, `solve.hpp`): solve = permutation + triangular solves -/
+
+/-- `cholesky_decomposition::solve(b)`: `trsv<lower>(L)`, `trsv<upper>(Lᵀ)`; `L` stored by columns -/
+def cholSolveArr (n : Nat) (L : Arr2) (b : Vec) : Array Rat :=
+  let Lm : Mat := fun i j => mget L j i
+  let y := trsvArr ⟨false, false⟩ true n Lm b
+  trsvArr ⟨true, false⟩ true n (transpose Lm) (fun i => vget y i)
+
+/-- `solve(A, b, symm_pos_def(), side)`: both sides are the same for a symmetric matrix -/
+def solveSpdArr (r : Rat → Rat) (n : Nat) (A : Mat) (b : Vec) : Array Rat :=
+  cholSolveArr n (cholCols r n A) b
+
+/-- `pivoting_lu_decomposition::solve(b, left)`: `swap_rows(P,b)`, `trsv<unit_lower>`, `trsv<upper>` -/
+def luSolveLeftArr (n : Nat) (s : LUState) (b : Vec) : Array Rat :=
+  let F : Mat := fun i j => mget s.M i j
+  let pb : Vec := fun i => b (permOf s.P n i)
+  let y := trsvArr ⟨false, true⟩ true n F pb
+  trsvArr ⟨true, false⟩ true n F (fun i => vget y i)
+
+/-- `solve(b, right)`: `trsv<upper,right>`, `trsv<unit_lower,right>`, `swap_rows_inverted(P,b)` -/
+def luSolveRightArr (n : Nat) (s : LUState) (b : Vec) : Array Rat :=
+  let F : Mat := fun i j => mget s.M i j
+  let y := trsvArr ⟨true, false⟩ false n F b
+  let z := trsvArr ⟨false, true⟩ false n F (fun i => vget y i)
+  vecOf n fun i => vget z (permInvOf s.P n i)
+
+/-- constructor of `symm_pos_semi_definite_solver`: `pstrf`, and for `0 < rank < n` the Cholesky
+factor of `LᵀL` (`L` = first `rank` columns) -/
+def semiFactor (r : Rat → Rat) (n : Nat) (A : Mat) : PState × Arr2 :=
+  let s := pstrf r (pstrfEps n A) n A
+  let rank := s.rank.getD n
+  let F : Mat := fun i j => mget s.M i j
+  let G : Mat := fun a c => sum n fun i => F i a * F i c
+  (s, if rank = n then #[] else cholCols r rank G)
+
+/-- `symm_pos_semi_definite_solver::solve(b)` -/
+def semiApplyArr (n : Nat) (f : PState × Arr2) (b : Vec) : Array Rat :=
+  let s := f.1
+  let rank := s.rank.getD n
+  let F : Mat := fun i j => mget s.M i j
+  let pb : Vec := fun i => b (permOf s.P n i)
+  let x : Array Rat :=
+    if rank = 0 then vecOf n fun _ => 0
+    else if rank = n then
+      let y := trsvArr ⟨false, false⟩ true n F pb
+      trsvArr ⟨true, false⟩ true n (transpose F) (fun i => vget y i)
+    else
+      -- least squares: z = Lᵀ b, twice (LᵀL)⁻¹, b = L z   (L = first `rank` columns)
+      let z : Vec := fun c => sum n fun i => F i c * pb i
+      let z1 := cholSolveArr rank f.2 z
+      let z2 := cholSolveArr rank f.2 (fun c => vget z1 c)
+      vecOf n fun i => sum rank fun c => F i c * vget z2 c
+  vecOf n fun i => vget x (permInvOf s.P n i)
+
+def semiSolveArr (r : Rat → Rat) (n : Nat) (A : Mat) (b : Vec) : Array Rat :=
+  semiApplyArr n (semiFactor r n A) b
+
 end SharkVerif.LinSolve
